@@ -101,8 +101,8 @@ def main():
                 st = "refuted"
                 text = m.message
                 break
-            elif m.state in (MessageType.EXEC_ERR, MessageType.POST_ERR, MessageType.PRE_INVALID,
-                             MessageType.SYNTAX_ERR, MessageType.IMPORT_ERR):
+            elif m.state in tuple(getattr(MessageType, n) for n in ("EXEC_ERR", "POST_ERR", "SYNTAX_ERR", "IMPORT_ERR")
+                                  if hasattr(MessageType, n)):
                 st = "error"
                 text = m.message + "\n" + (m.traceback or "")
                 break
